@@ -47,6 +47,19 @@ ERROR>>> while parsing /policy/api/v1/infra/domains/default/gateway-policies: in
 =END=
 
 ############################################################
+=TITLE=Error message with status 200 instead of list of services
+=SCENARIO=
+[[session]]
+GET /policy/api/v1/infra/domains/default/gateway-policies
+{}
+GET /policy/api/v1/infra/services
+{"httpStatus":"BAD_REQUEST","error_code":500012,"module_name":"policy","error_message":"Request rejected."}
+=NETSPOC=NONE
+=ERROR=
+ERROR>>> while parsing /policy/api/v1/infra/services: got error message instead of results: Request rejected. (500012)
+=END=
+
+############################################################
 =TITLE=Empty policies, services and groups
 =SCENARIO=
 [[session]]
